@@ -244,6 +244,21 @@ def gen(repo):
     ol, sh = classes["OperationLog"], classes["SimulationHistory"]
     out, functions = [], []
 
+    # OperationLog.hash / _fast_dumped_string: what the digest covers (the model's lhash = hashf previous_hash command (playlogs without
+    # their checkpoints); the description is not covered) - compared with the reviewed shapes
+    for name, text in (("hash", "if not self._calculated_hash:\n"
+                                "    stringified = self.previous_hash + self._fast_dumped_string()\n"
+                                "    self._calculated_hash = hashlib.sha1(stringified.encode()).hexdigest()\n"
+                                "return self._calculated_hash\n"),
+                       ("_fast_dumped_string", "return self.command.model_dump_json() + '|'.join((playlog.model_dump_json(exclude=set(['checkpoint'])) "
+                                               "for playlog in self.playlogs))\n")):
+        got = [st for st in method(ol, name).body if not (isinstance(st, ast.Expr) and isinstance(st.value, ast.Constant))]
+        want = ast.parse(text).body
+        if len(got) != len(want) or any(ast.dump(a) != ast.dump(b) for a, b in zip(got, want)):
+            raise Rejected("OperationLog.%s is not the reviewed shape (the digest must cover previous_hash, the command and the play logs "
+                           "without their checkpoints): %s" % (name, " ".join(ast.unparse(method(ol, name)).split())[:300]))
+    functions += ["OperationLog.hash (reviewed shape)", "OperationLog._fast_dumped_string (reviewed shape)"]
+
     # OperationLog.last
     fn = method(ol, "last")
     if args_of(fn) != ["self"]:
